@@ -264,6 +264,7 @@ impl<'g> Gen<'g> {
         match rng.below(20) {
             0 => 0xffff_ffff,
             1 => 0x0001_0000 + rng.below(100) as u32,
+            2 => *rng.pick(&[127u32, 128, 255, 256, 257, 1023, 1024, 4095, 4096, 0xffff, 0x0001_0000, 0x00ff_ffff, 0x0100_0000, 0x7fff_ffff, 0x8000_0000, 0xffff_fffe]),
             _ => 1 + rng.below(60) as u32,
         }
     }
@@ -302,15 +303,16 @@ impl<'g> Gen<'g> {
     /// One concrete operand of `kind` (plus its parameters).  `forced`: first word to use.
     pub fn operand(&self, kind: &str, rng: &mut Rng, ctx: &mut Ctx, forced: Option<u32>, rt_words: usize, sel_words: usize, out: &mut Vec<SOp>) {
         // quantified parameters of enumerants (see Gram::load): any number / at most one occurrence
-        if let Some(base) = kind.strip_suffix('*') { let n = FORCE_REPS.with(|f| f.get()).unwrap_or_else(|| rng.below(4)); for _ in 0..n { self.operand(base, rng, ctx, None, rt_words, sel_words, out); } return; }
+        if let Some(base) = kind.strip_suffix('*') { let n = FORCE_REPS.with(|f| f.get()).unwrap_or_else(|| rng.count(4)); for _ in 0..n { self.operand(base, rng, ctx, None, rt_words, sel_words, out); } return; }
         if let Some(base) = kind.strip_suffix('?') { if rng.chance(1, 2) { self.operand(base, rng, ctx, None, rt_words, sel_words, out); } return; }
         match kind {
             "IdRef" | "IdScope" | "IdMemorySemantics" => out.push(SOp::one(kind, forced.unwrap_or_else(|| self.id(rng)))),
             "LiteralInteger" | "LiteralFloat" => out.push(SOp::one("LiteralBit32", forced.unwrap_or_else(|| self.lit(rng)))),
             "LiteralExtInstInteger" => out.push(SOp::one(kind, forced.unwrap_or_else(|| self.lit(rng)))),
             "LiteralString" => {
-                let s = rng.pick(STRINGS);
-                out.push(SOp { k: kind.into(), w: vec![], s: Some(s.as_bytes().to_vec()) })
+                // now and then a string whose length sits at a power of two or a word boundary far from the short ones
+                let bs = if rng.chance(1, 16) { long_string(*rng.pick(LONG_LENGTHS)).into_bytes() } else { rng.pick(STRINGS).as_bytes().to_vec() };
+                out.push(SOp { k: kind.into(), w: vec![], s: Some(bs) })
             }
             "LiteralContextDependentNumber" => self.literal(rng, rt_words, out),
             "PairLiteralIntegerIdRef" => {
@@ -357,7 +359,7 @@ impl<'g> Gen<'g> {
         let has_var = sig.iter().any(|o| o.q == "ZeroOrMore");
         let mut present_opt = plan.optionals.unwrap_or_else(|| rng.below(n_opt + 1)).min(n_opt);
         // a variadic operand may only appear when every optional before it is present
-        let reps = if has_var && present_opt == n_opt { plan.variadic.unwrap_or_else(|| rng.below(4)) } else { 0 };
+        let reps = if has_var && present_opt == n_opt { plan.variadic.unwrap_or_else(|| rng.count(4)) } else { 0 };
         for (i, lo) in sig.iter().enumerate() {
             let forced = plan.forced.get(&(base + i)).cloned();
             match lo.q.as_str() {
@@ -380,6 +382,7 @@ impl<'g> Gen<'g> {
     }
     /// A conforming instruction of `opcode`; type declarations it needs are appended to ctx.
     pub fn inst(&self, opcode: u32, rng: &mut Rng, ctx: &mut Ctx, plan: &Plan) -> SInst {
+        scale_reset_inst();
         let g = &self.g.insts[&opcode];
         let mut lead = 0;
         let mut rt = None;
